@@ -292,7 +292,7 @@ theorem containsAll_single (b : Book) (v : Nat) (s : Option (Nat × Nat)) :
     containsAll b (v, v) s = contains b v s := by
   unfold containsAll
   have : v + 1 - v = 1 := by omega
-  simp [this, List.range']
+  simp [this]
 
 theorem heldOk_step {L : Nat → Nat} {st : Node} (h : Inv L st) {op : Op} (hop : OpOk L op)
     (hclean : CleanOp st op) {C : Nat → Prop} (hC : HeldOk C st) :
